@@ -61,7 +61,7 @@ theorem primStart_cf {w w' : World} {x : Nat} {p : Prim} {n : Nat}
 
 /-- forward saturation with the frame facts of the helpers -/
 macro "bo_sat" : tactic => `(tactic|
-  (try (have := branch_cf ‹World.branch _ _ _ _ = Except.ok _›)
+  (try (have := branch_cf ‹World.branch _ _ _ _ _ = Except.ok _›)
    try (have := yieldNow_cf ‹World.yieldNow _ = Except.ok _›)
    try (have := primEffect_cf ‹World.primEffect _ _ _ = Except.ok _›)
    try (have := postAcquire_cf ‹World.postAcquire _ _ = Except.ok _›)
@@ -350,7 +350,7 @@ theorem blockOn_stage12 (hs : c.stage = 12) :
     w.blockOnStage c f mode = (do
       let w1 ← w.wakerClone (w.futs.getD f {}).arc
       let m ← w1.getMutex (w.futs.getD f {}).slotMutex
-      (w1.setStage 30).branch (w.futs.getD f {}).slotMutex .opaque (block := m.lock.isSome)) := by
+      (w1.setStage 30).branch (w.futs.getD f {}).slotMutex .opaque (block := m.lock.isSome) (wait := true)) := by
   unfold World.blockOnStage; simp only [hs]
 
 theorem blockOn_stage30 (hs : c.stage = 30) :
@@ -377,11 +377,11 @@ theorem blockOn_stage40 (hs : c.stage = 40) :
       let w1 ← w.wakerDrop (w.futs.getD f {}).arc
       if World.slotMode mode then do
         let m ← w1.getMutex (w.futs.getD f {}).slotMutex
-        (w1.setStage 45).branch (w.futs.getD f {}).slotMutex .opaque (block := m.lock.isSome)
+        (w1.setStage 45).branch (w.futs.getD f {}).slotMutex .opaque (block := m.lock.isSome) (wait := true)
       else if mode == 3 || mode == 4 then pure (w1.complete (.val 7))
       else do
         let m ← w1.getMutex (w.futs.getD f {}).awMutex
-        (w1.setStage 44).branch (w.futs.getD f {}).awMutex .opaque (block := m.lock.isSome)) := by
+        (w1.setStage 44).branch (w.futs.getD f {}).awMutex .opaque (block := m.lock.isSome) (wait := true)) := by
   unfold World.blockOnStage; simp only [hs]
 
 theorem blockOn_stage41 (hs : c.stage = 41) :
@@ -428,7 +428,7 @@ theorem blockOn_stage45 (hs : c.stage = 45) :
 theorem wake_stage0_quiet (b : Bool) (hs : c.stage = 0) :
     w.wakeStage c f b false = (do
       let m ← w.getMutex (w.futs.getD f {}).slotMutex
-      (w.setStage 2).branch (w.futs.getD f {}).slotMutex .opaque (block := m.lock.isSome)) := by
+      (w.setStage 2).branch (w.futs.getD f {}).slotMutex .opaque (block := m.lock.isSome) (wait := true)) := by
   unfold World.wakeStage; simp only [hs]; rfl
 
 theorem wake_stage2 (b st : Bool) (hs : c.stage = 2) :
